@@ -239,6 +239,10 @@ def gen_cases(rec, rng, tier):
         if rec.shard % 2 == 0:
             yield {'cls': cls, 'ref': RG, 'n': n}
         yield {'cls': cls + '_renamed', 'ref': cfgg.random_var_renaming(rng, RG), 'n': n, 'hint': rng.choice('SAXQ'), 'start_variable': rng.choice('TSAZ')}
+    for _ in range(40 if thorough else 12):
+        RG = cfgg.unit_cycle_grammar(rng)
+        yield {'cls': 'unit_cycles', 'ref': RG, 'n': 3}
+        yield {'cls': 'unit_cycles_renamed', 'ref': cfgg.random_var_renaming(rng, RG), 'n': 3}
     for nv in ((23, 25, 26, 27, 30) if thorough else (24, 26, 28)):
         if rec.shard % 4 == (nv % 4):
             yield {'cls': 'many_variables_%d' % nv, 'ref': cfgg.many_variables(rng, nv), 'n': 4}
